@@ -21,17 +21,40 @@ TInit == /\ tid \in 1..Len(Traces) /\ l = 1
 ObsSend == /\ phase = "build" /\ cfg.mode = "split" /\ E.e = "send"
            /\ text' = E.text /\ stream' = E.stream /\ lines' = Lines(E.stream) /\ err' = (E.exc # "") /\ phase' = "sent"
            /\ AcceptsX(cfg, text', lines', err', CheckLen)
-           /\ UNCHANGED <<cfg, q, back>>
+           /\ UNCHANGED <<cfg, q, back, msgs, queue>>
 
 ObsQuote == /\ phase = "build" /\ cfg.mode \in {"low", "ctcp"} /\ E.e = "quote" /\ E.exc = ""
             /\ E.back = E.text
             /\ (Strict => E.q = RefQuote(cfg.mode, E.text))
             /\ text' = E.text /\ q' = E.q /\ back' = E.back /\ phase' = "quoted"
-            /\ UNCHANGED <<cfg, stream, lines, err>>
+            /\ UNCHANGED <<cfg, stream, lines, err, msgs, queue>>
+
+(* history mode (cfg.mode = "hist"): several msg / notice calls on one client, possibly with lineRate set (the
+   harness supplies a fake clock as the reactor of the send queue); every event carries the octets written to the
+   transport during it.
+     [e |-> "send", kind, user, limit, text, exc, wrote]   [e |-> "tick", wrote]   [e |-> "drain", wrote]
+   "drain" = the clock was advanced until no timer is pending: from then on each message must be complete.   *)
+HSend == /\ cfg.mode = "hist" /\ E.e = "send" /\ phase = "build"
+         /\ msgs' = Append(msgs, [kind |-> E.kind, user |-> E.user, limit |-> E.limit, text |-> E.text, err |-> (E.exc # "")])
+         /\ DistinctPrefixes(msgs')
+         /\ stream' = stream \o E.wrote /\ lines' = Lines(stream')
+         /\ LinesSafeX(msgs', lines', CheckLen)
+         /\ UNCHANGED <<cfg, text, phase, err, q, back, queue>>
+HTick == /\ cfg.mode = "hist" /\ E.e = "tick" /\ phase = "build"
+         /\ stream' = stream \o E.wrote /\ lines' = Lines(stream')
+         /\ LinesSafeX(msgs, lines', CheckLen)
+         /\ UNCHANGED <<cfg, text, phase, err, q, back, msgs, queue>>
+HDrain == /\ cfg.mode = "hist" /\ E.e = "drain" /\ phase = "build" /\ E.exc = ""
+          /\ stream' = stream \o E.wrote /\ lines' = Lines(stream')
+          /\ HistOKX(msgs, lines', CheckLen)
+          /\ phase' = "sent"
+          /\ UNCHANGED <<cfg, text, err, q, back, msgs, queue>>
 
 Step(A) == /\ l <= Len(T.ev) /\ A /\ QuoteOK' /\ l' = l + 1 /\ UNCHANGED tid
 StepNoLen(A) == /\ l <= Len(T.ev) /\ A /\ l' = l + 1 /\ UNCHANGED tid
-TNext == IF CheckLen THEN Step(ObsSend) \/ Step(ObsQuote) ELSE StepNoLen(ObsSend) \/ StepNoLen(ObsQuote)
+HNext == StepNoLen(HSend) \/ StepNoLen(HTick) \/ StepNoLen(HDrain)
+TNext == IF CheckLen THEN Step(ObsSend) \/ Step(ObsQuote) \/ HNext
+                     ELSE StepNoLen(ObsSend) \/ StepNoLen(ObsQuote) \/ HNext
 TSpec == TInit /\ [][TNext]_<<vars, tid, l>>
 
 Progress == TLCSet(tid, IF TLCGet(tid) > l THEN TLCGet(tid) ELSE l)
